@@ -275,6 +275,20 @@ impl DodecahedronProjection {
     }
 }
 
+#[cfg(feature = "verif")]
+impl DodecahedronProjection {
+    /// Verification hook: which memo slots are filled in the calling thread
+    /// (30 face triangles, 240 spherical triangles) and the CRS lookup count.
+    pub fn verif_memo_fill() -> (Vec<bool>, Vec<bool>, usize) {
+        let d = Self::get_thread_local();
+        (
+            d.face_triangles.iter().map(|t| t.is_some()).collect(),
+            d.spherical_triangles.iter().map(|t| t.is_some()).collect(),
+            d.crs.verif_invocations(),
+        )
+    }
+}
+
 impl Default for DodecahedronProjection {
     fn default() -> Self {
         Self::new().expect("Failed to create DodecahedronProjection")
